@@ -232,23 +232,23 @@ func splitCompositeTypes(name string) []string {
 	}
 	var parts []string
 	lessCount := 0
-	segment := ""
-	for _, char := range name {
-		if char == ',' && lessCount == 0 {
-			if segment != "" {
-				parts = append(parts, strings.TrimSpace(segment))
+	start := 0
+	for i := 0; i < len(name); i++ {
+		switch name[i] {
+		case ',':
+			if lessCount == 0 {
+				if segment := name[start:i]; segment != "" {
+					parts = append(parts, strings.TrimSpace(segment))
+				}
+				start = i + 1
 			}
-			segment = ""
-			continue
-		}
-		segment += string(char)
-		if char == '<' {
+		case '<':
 			lessCount++
-		} else if char == '>' {
+		case '>':
 			lessCount--
 		}
 	}
-	if segment != "" {
+	if segment := name[start:]; segment != "" {
 		parts = append(parts, strings.TrimSpace(segment))
 	}
 	return parts
@@ -256,16 +256,31 @@ func splitCompositeTypes(name string) []string {
 
 func apacheToCassandraType(t string) string {
 	t = strings.Replace(t, apacheCassandraTypePrefix, "", -1)
-	t = strings.Replace(t, "(", "<", -1)
-	t = strings.Replace(t, ")", ">", -1)
-	types := strings.FieldsFunc(t, func(r rune) bool {
-		return r == '<' || r == '>' || r == ','
-	})
-	for _, typ := range types {
-		t = strings.Replace(t, typ, getApacheCassandraType(typ).String(), -1)
+	// one pass over the class names and the punctuation between them (the text comes from
+	// the schema tables and may be long)
+	var b strings.Builder
+	start := 0
+	for i := 0; i <= len(t); i++ {
+		if i < len(t) && t[i] != '(' && t[i] != ')' && t[i] != '<' && t[i] != '>' && t[i] != ',' {
+			continue
+		}
+		if i > start {
+			b.WriteString(getApacheCassandraType(t[start:i]).String())
+		}
+		if i < len(t) {
+			switch t[i] {
+			case '(', '<':
+				b.WriteByte('<')
+			case ')', '>':
+				b.WriteByte('>')
+			case ',':
+				// This is done so it exactly matches what Cassandra returns
+				b.WriteString(", ")
+			}
+		}
+		start = i + 1
 	}
-	// This is done so it exactly matches what Cassandra returns
-	return strings.Replace(t, ",", ", ", -1)
+	return b.String()
 }
 
 func getApacheCassandraType(class string) Type {
